@@ -192,10 +192,15 @@ func genProgram(r *rand.Rand, targetKind string, nops int, big bool) *Program {
 	tr := newTracker()
 	nextCp := 1
 	var lastBget []string
+	sitOpen := false
 	limited := r.Intn(8) == 0 // programs that play with the entry / buffer size limits
 	pick := func() []byte { return pool[r.Intn(len(pool))] }
 	for len(p.Ops) < nops {
 		x := r.Intn(127)
+		if sitOpen && tr.depth() > 0 && r.Intn(5) == 0 {
+			p.Ops = append(p.Ops, Op{Op: "sitnext", ID: 1 + r.Intn(3)})
+			continue
+		}
 		if txn && r.Intn(40) == 0 {
 			p.Ops = append(p.Ops, Op{Op: "split", K: hx(genBound(r, pool))})
 			continue
@@ -259,6 +264,11 @@ func genProgram(r *rand.Rand, targetKind string, nops int, big bool) *Program {
 				p.Ops = append(p.Ops, Op{Op: "sbget", Keys: ks})
 			} else if r.Intn(2) == 0 {
 				p.Ops = append(p.Ops, Op{Op: "sget", K: hx(pick())})
+			} else if r.Intn(3) == 0 && tr.depth() > 0 {
+				p.Ops = append(p.Ops, Op{Op: "sitnew", Lo: hx(genBound(r, pool)), Hi: hx(genBound(r, pool)), H: r.Intn(2)})
+				sitOpen = true
+			} else if sitOpen && r.Intn(2) == 0 {
+				p.Ops = append(p.Ops, Op{Op: "sitnext", ID: 1 + r.Intn(3)})
 			} else if r.Intn(3) == 0 {
 				p.Ops = append(p.Ops, Op{Op: "snapnew"})
 			} else {
